@@ -59,6 +59,8 @@ def gen_document(rng: random.Random, prof: Dict[str, Any] = None) -> Any:  # typ
     if prof is None:
         prof = profile(rng)
     n = rng.randint(1, prof["max_children"] + 1)
+    if rng.random() < 0.04:
+        n = 0  # the empty object / array is a document too (and it is falsy)
     budget = [40]
     if rng.random() < 0.6:
         out: Dict[str, Any] = {}
